@@ -355,6 +355,27 @@ func normalize(msg string) string {
 	return strings.TrimSpace(s)
 }
 
+// faultInRepo tells whether the function that panicked belongs to the code
+// under test (a library call made by a harness goroutine that blows up is a
+// crash of the process that made it, not a defect of the harness).
+func faultInRepo(stack string) bool {
+	after := false
+	for _, l := range strings.Split(stack, "\n") {
+		if strings.HasPrefix(l, "\t") || l == "" {
+			continue
+		}
+		if strings.HasPrefix(l, "panic(") {
+			after = true
+			continue
+		}
+		if !after || strings.HasPrefix(l, "runtime.") || strings.HasPrefix(l, "runtime/") {
+			continue
+		}
+		return strings.HasPrefix(l, "github.com/lugu/qiloop/")
+	}
+	return false
+}
+
 // CrashClass is the class key of a crash.
 func CrashClass(prop string, c zzsim.Crash) string {
 	where := ""
@@ -409,7 +430,7 @@ func Execute(t *testing.T, sc Scenario, c *Case, recording bool, tapeSeed uint64
 				v.Fired[k] = n
 			}
 			for _, cr := range s.Crashes() {
-				if cr.Node == "harness" || cr.Node == "" {
+				if (cr.Node == "harness" || cr.Node == "") && !faultInRepo(cr.Stack) {
 					v.HarnessError = fmt.Sprintf("harness goroutine %s crashed: %s\n%s", cr.Goroutine, cr.Msg, cr.Stack)
 					continue
 				}
